@@ -319,7 +319,11 @@ def gen_jsonclass(n, rnd):
     """Bodies carrying __jsonclass__ descriptors: side-effect-free classes (decimal.Decimal), unresolvable names,
     invalid names, malformed descriptors - at the id, in params, nested."""
     good = [{"__jsonclass__": ["decimal.Decimal", ["1.5"]]}, {"__jsonclass__": ["decimal.Decimal", ["0"]]},
-            {"__jsonclass__": ["fractions.Fraction", [1, 3]]}]
+            {"__jsonclass__": ["fractions.Fraction", [1, 3]]},
+            # side-effect-free classes whose instances, built this way, cannot tell their length / truth value
+            {"__jsonclass__": ["collections.UserList", []], "data": 5}, {"__jsonclass__": ["collections.UserDict", []], "data": 5},
+            {"__jsonclass__": ["collections.UserString", ["x"]], "data": 5}, {"__jsonclass__": ["collections.OrderedDict", []]},
+            {"__jsonclass__": ["collections.UserList", [[1]]]}]
     bad = [{"__jsonclass__": ["no.such.module.Cls", []]}, {"__jsonclass__": ["decimal.NoSuchClass", []]},
            {"__jsonclass__": ["a b.C", []]}, {"__jsonclass__": ["", []]}, {"__jsonclass__": ["os;system", ["x"]]},
            {"__jsonclass__": ["decimal.Decimal", 5]}, {"__jsonclass__": ["decimal.Decimal", ["x", "y", "z", "t"]]},
@@ -336,8 +340,16 @@ def gen_jsonclass(n, rnd):
         use_bad = rnd.random() < 0.5
         d = rnd.choice(bad if use_bad else good)
         ent = {"jsonrpc": "2.0", "method": "ok_1", "id": rnd.choice([1, "a", 0])}
-        where = rnd.choice(["id", "params", "nested", "dictparam", "extra"])
-        if where == "id":
+        where = rnd.choice(["id", "params", "nested", "dictparam", "extra", "top", "method", "jsonrpc", "wholeparams"])
+        if where == "top":
+            ent = d                      # the request itself is the translated object
+        elif where == "method":
+            ent["method"] = d
+        elif where == "jsonrpc":
+            ent["jsonrpc"] = d
+        elif where == "wholeparams":
+            ent["params"] = d
+        elif where == "id":
             ent["id"] = d
         elif where == "params":
             ent["params"] = [d]
